@@ -17,7 +17,131 @@ var syncers = map[string]hk.Gosyncer{"CloneTable": syncCloneTable}
 // for every reference-typed field the model tracks, whether the clone receives a deep copy
 // (cloneSlice / cloneMap / cloneUrlValues / x.Clone()) or keeps the original's reference
 // (`cc := *c` with no later assignment, or a plain `field: t.field` in the composite literal).
+// helperFreshness reads cloneSlice / cloneMap / cloneUrlValues (req.go) and decides, from the shape of the body,
+// whether the result shares no backing storage with the argument:
+//
+//	cloneSlice      ss := make([]T, len(s)); copy(ss, s); return ss        (or a fresh append)
+//	cloneMap        m := make(map...); for k, v := range h { m[k] = v }    (string values)
+//	cloneUrlValues  vv := make(url.Values...); per key either an inner loop vv.Add(key, value) or
+//	                vv[key] = <fresh append>: append([]string(nil), vs...) / append(vs[:0:0], vs...) /
+//	                append(make(...), vs...).  `append(vs[:0], vs...)` or `vv[key] = vs` alias the source.
+func helperFreshness(repo string) (map[string]bool, error) {
+	fs := token.NewFileSet()
+	f, err := parser.ParseFile(fs, filepath.Join(repo, "req.go"), nil, 0)
+	if err != nil {
+		return nil, err
+	}
+	isIdent := func(e ast.Expr, name string) bool { id, ok := e.(*ast.Ident); return ok && id.Name == name }
+	isMake := func(e ast.Expr) bool {
+		c, ok := e.(*ast.CallExpr)
+		return ok && isIdent(c.Fun, "make")
+	}
+	// append(<fresh base>, src...)
+	freshAppend := func(e ast.Expr, src string) bool {
+		c, ok := e.(*ast.CallExpr)
+		if !ok || !isIdent(c.Fun, "append") || len(c.Args) != 2 || !c.Ellipsis.IsValid() || !isIdent(c.Args[1], src) {
+			return false
+		}
+		switch b := c.Args[0].(type) {
+		case *ast.CallExpr: // []T(nil) or make(...)
+			if isMake(b) {
+				return true
+			}
+			if _, ok := b.Fun.(*ast.ArrayType); ok && len(b.Args) == 1 && isIdent(b.Args[0], "nil") {
+				return true
+			}
+		case *ast.SliceExpr: // src[:0:0]
+			if b.Slice3 && b.Max != nil {
+				if lit, ok := b.Max.(*ast.BasicLit); ok && lit.Value == "0" {
+					return true
+				}
+			}
+		}
+		return false
+	}
+	out := map[string]bool{}
+	for _, d := range f.Decls {
+		fd, ok := d.(*ast.FuncDecl)
+		if !ok || fd.Recv != nil || fd.Body == nil || len(fd.Type.Params.List) != 1 || len(fd.Type.Params.List[0].Names) != 1 {
+			continue
+		}
+		arg := fd.Type.Params.List[0].Names[0].Name
+		switch fd.Name.Name {
+		case "cloneSlice", "cloneMap", "cloneUrlValues":
+		default:
+			continue
+		}
+		// the variable returned by the last statement, and how it was made
+		var res string
+		if n := len(fd.Body.List); n > 0 {
+			if r, ok := fd.Body.List[n-1].(*ast.ReturnStmt); ok && len(r.Results) == 1 {
+				if id, ok := r.Results[0].(*ast.Ident); ok {
+					res = id.Name
+				} else if fd.Name.Name == "cloneSlice" && freshAppend(r.Results[0], arg) {
+					out[fd.Name.Name] = true
+					continue
+				}
+			}
+		}
+		made, copied, okBody := false, false, true
+		ast.Inspect(fd.Body, func(n ast.Node) bool {
+			switch x := n.(type) {
+			case *ast.AssignStmt:
+				if len(x.Lhs) == 1 && len(x.Rhs) == 1 {
+					if isIdent(x.Lhs[0], res) {
+						if isMake(x.Rhs[0]) || (fd.Name.Name == "cloneSlice" && freshAppend(x.Rhs[0], arg)) {
+							made = true
+							if !isMake(x.Rhs[0]) {
+								copied = true
+							}
+						} else {
+							okBody = false
+						}
+					}
+					// vv[key] = <expr>
+					if ix, ok := x.Lhs[0].(*ast.IndexExpr); ok && isIdent(ix.X, res) {
+						switch fd.Name.Name {
+						case "cloneUrlValues":
+							// the values variable of the enclosing range statement is found below; accept only a fresh append of an identifier
+							c, isCall := x.Rhs[0].(*ast.CallExpr)
+							if !isCall || len(c.Args) != 2 {
+								okBody = false
+							} else if src, ok := c.Args[1].(*ast.Ident); !ok || !freshAppend(x.Rhs[0], src.Name) {
+								okBody = false
+							} else {
+								copied = true
+							}
+						case "cloneMap":
+							copied = true // map[string]string: the values are strings
+						}
+					}
+				}
+			case *ast.CallExpr:
+				if isIdent(x.Fun, "copy") && len(x.Args) == 2 && isIdent(x.Args[0], res) && isIdent(x.Args[1], arg) {
+					copied = true
+				}
+				if sel, ok := x.Fun.(*ast.SelectorExpr); ok && sel.Sel.Name == "Add" && isIdent(sel.X, res) && fd.Name.Name == "cloneUrlValues" {
+					copied = true // vv.Add(key, value): appends a string to the clone's own slice
+				}
+			}
+			return true
+		})
+		out[fd.Name.Name] = res != "" && made && copied && okBody
+	}
+	for _, n := range []string{"cloneSlice", "cloneMap", "cloneUrlValues"} {
+		if _, ok := out[n]; !ok {
+			return nil, fmt.Errorf("req.go: helper %s not found", n)
+		}
+	}
+	return out, nil
+}
+
 func syncCloneTable(repo string) (string, string, error) {
+	// the copy helpers of req.go count as deep only when their bodies hand out fresh storage
+	fresh, err := helperFreshness(repo)
+	if err != nil {
+		return "", "", err
+	}
 	deepCall := func(e ast.Expr) bool {
 		c, ok := e.(*ast.CallExpr)
 		if !ok {
@@ -25,7 +149,7 @@ func syncCloneTable(repo string) (string, string, error) {
 		}
 		switch f := c.Fun.(type) {
 		case *ast.Ident:
-			return f.Name == "cloneSlice" || f.Name == "cloneMap" || f.Name == "cloneUrlValues"
+			return fresh[f.Name]
 		case *ast.SelectorExpr:
 			return f.Sel.Name == "Clone"
 		}
